@@ -19,6 +19,9 @@ pub const SWEEP_BASE: u64 = 1 << 40;
 pub const MARATHON_BASE: u64 = 1 << 39;
 /// Session indices in [FLOOD_BASE, MARATHON_BASE) are name-flood sessions (see `plan_flood`).
 pub const FLOOD_BASE: u64 = 1 << 38;
+/// Session index WARP_BASE + k is ordinary session k again - the same plan - run under the clock
+/// seam (`clockwarp.so`: every reading of a clock jumps one hour ahead of the previous one).
+pub const WARP_BASE: u64 = 1 << 37;
 
 pub const KINDS: &[&str] = &[
     "rekey",
@@ -34,6 +37,7 @@ pub const KINDS: &[&str] = &[
     "mode-flip",
     "restart",
     "name-flood",
+    "clock-warp",
 ];
 
 #[derive(Clone, Debug, Serialize, Deserialize)]
@@ -88,6 +92,12 @@ fn error_req(i: usize) -> Request {
         &a,
         &it,
     )
+}
+
+/// Skew (0..10 years) and jump (one hour per reading) of the clock seam for a warp session.
+pub fn clock_of(idx: u64) -> crate::plan::ClockWarp {
+    let days = (idx.wrapping_mul(7919) % 3650) as i128;
+    crate::plan::ClockWarp { base_ns: days * 86_400_000_000_000, step_ns: 3_600_000_000_000 }
 }
 
 struct Builder {
@@ -270,6 +280,15 @@ pub fn plan_session(p: &SessionParams, pool: &Pool) -> (Plan, SessionMeta) {
     }
     if p.idx >= FLOOD_BASE && p.idx < MARATHON_BASE {
         return plan_flood(p, pool);
+    }
+    if p.idx >= WARP_BASE && p.idx < FLOOD_BASE {
+        let mut q = p.clone();
+        q.idx = p.idx - WARP_BASE;
+        let (mut plan, mut meta) = plan_session(&q, pool);
+        plan.clock = Some(clock_of(p.idx));
+        meta.enabled.push("clock-warp".into());
+        meta.fired.insert("clock-warp".into(), plan.steps.len());
+        return (plan, meta);
     }
     let seed = derive_seed(p.root, LABEL_SESSION, p.idx);
     // Twin sessions: sessions 2k and 2k+1 draw the same working set (client stream) but have
